@@ -297,7 +297,7 @@ def execute(sc: dict, seed: int) -> dict:
             if how == "untraced":
                 rr = harness.run_scenario(s, w, trace_mode="none", name=f"o{i}")
             elif how == "fresh":
-                rr = harness.run_scenario(s, w, trace_mode=("file" if i % 2 else "dir"), detail=detail, name=f"o{i}")
+                rr = harness.run_scenario(s, w, trace_mode=("file", "dir", "dotdir")[i % 3], detail=detail, name=f"o{i}")
             elif how == "reuse_feedback":
                 from semantiva import Payload
                 from semantiva.context_processors import ContextType
